@@ -1,9 +1,11 @@
 """C15 - clipping relationships are resolved correctly and kept current.
 
 Part 1 (proved + correspondence): `_compute_clipping_layers` = the per-layer specification.
-Part 2 (search only, on the real code): the relation reported by `clip_layers` / `_has_clip_target`
-is the specification evaluated on the *current* tree after every structural edit, flag change and
-compatibility-mode change.
+Part 2 (proved over a state model + a regenerated table of the public mutators; searched on the real code):
+the relation stored on the layers (`_clip_layers` / `_has_clip_target`) is the specification evaluated on the
+*current* tree after every structural edit, flag change, blend-mode change and compatibility-mode change.
+Part 3 (correspondence): every public call of the edit histories on the real code and on the state model
+(`clipst.hist`, driven by the regenerated table), comparing the private attributes after every call.
 """
 from __future__ import annotations
 
@@ -550,7 +552,13 @@ def run(ctx: core.Run):
     ctx.trusted_base += [
         "Lean 4.33 kernel; axioms allowed: propext, Classical.choice, Quot.sound (audited per theorem)",
         "Model/Clip.lean is a hand transliteration of rec_helper in PSDImage._compute_clipping_layers; tied by this run's correspondence check",
-        "harness/extract_c15.py: AST reader of _compute_clipping_layers/_clear_clipping_layers, CompatibilityMode members",
+        "harness/extract_c15.py: AST reader of _compute_clipping_layers/_clear_clipping_layers, CompatibilityMode members; "
+        "and the call-graph flattener behind Generated/ClipCurrent.lean (which object an expression names: textual substitution "
+        "of self / parameters / simple aliases, `X._psd` = the document of X; the same expression names the same object "
+        "within one straight-line segment)",
+        "Model/ClipState.lean: the stored relation as attributes on the nodes, a recomputation = clear over the visited layers "
+        "then the pass; tied by the history correspondence of this run",
+        "C09's invariants: a layer object occurs once in a tree; a container inside a document has _psd = that document",
         "harness/docbuild.py: synthetic documents; layers identified by pre-order position",
         "the specification: Model/Clip.lean `Spec.clip` (proved equal to the pass) and, independently, `spec_level` in harness/props/C15.py",
     ]
@@ -558,7 +566,10 @@ def run(ctx: core.Run):
         "a non-group layer whose blend mode was set to pass-through is outside the property's domain (the code treats it "
         "like a pass-through group; theorem groupOnly_reading_agrees / groupOnly_reading_differs); it is compared model vs "
         "code but not judged by the search",
-        "the `kept current` half is checked on the real code by search only (no edit model in this check)",
+        "kept current is proved for histories of PUBLIC mutators of the API classes (the rows of Generated/ClipCurrent.lean); "
+        "writing layer._record.clipping, a divider block or layer.tagged_blocks directly bypasses every setter and is outside the claim",
+        "in the theorem a structural edit may replace the tree by ANY tree (what an edit does to the tree is C09's subject); "
+        "`_update_record()` and the traversals are assumed not to raise",
     ]
     quick = ctx.quick
     rng = ctx.rng
@@ -741,11 +752,18 @@ def run(ctx: core.Run):
         "nested inside (pass-through) groups with clipping neighbours; lists with non-group pass-through children (model vs "
         "code only); random trees (depth <= 5, <= 40 layers). A case is non-trivial when some layer has the clipping flag; "
         "distinct = (tree, mode). part 2: %d edit histories (every operation alone from a fixed arrangement, then random "
-        "histories of %d operations over %d operations) with the relation compared with the specification after every step."
+        "histories of %d operations over %d operations, among them moves into detached groups and into a second document, "
+        "layers adopted from there, slices, blend modes of plain layers, all 25 ordered pairs of compatibility modes) with the "
+        "private attributes compared after every step with the specification (documents without pass-through plain layers) and "
+        "with the same arrangement freshly opened (all documents). part 3: the same histories, every public mutator call a "
+        "step of the state model, stored relation compared after the constructor and after every call."
         % (nmax, len(plans), hist_len, len(OPS)))
     ctx.notes += [
-        "stated in DESIGN, not proved here: clip_current (ClipFresh preserved by every edit step) - needs the edit model of "
-        "C09; this check searches it on the real code instead (part 2)",
+        "DESIGN's clip_current is proved as kept_current / kept_current_now / kept_current_meaning over Model/ClipState.lean "
+        "(structural edits abstract: any new tree), tied to the source by Generated/ClipCurrent.lean; it is ALSO searched on "
+        "the real code (part 2) and the state model is run against every public call of those histories (part 3)",
+        "defect found by part 2 with the fresh-open oracle and fixed in the repository (24f4b7d): the Layer.blend_mode setter did "
+        "not recompute although the pass tests the blend mode of every layer",
         "stated in DESIGN, not proved here: compositor_honours - observed dynamically on pixel documents (compositor gate)",
         "defect found by part 2 and fixed in the repository (fix: recompute clipping relationships after structural edits "
         "and group blend-mode changes): every structural edit left clip_layers/_has_clip_target stale",
@@ -753,8 +771,13 @@ def run(ctx: core.Run):
     ctx.exhaustive = True
     ctx.model_coverage = {
         "modelled": ["rec_helper on one children list (stack, pass-through test, trailing loop)", "recursion over the tree",
-                     "_clear_clipping_layers defaults", "CompatibilityMode members"],
-        "search_only": ["recomputation after structural edits / setters", "compositor gate at composite/__init__.py:231"],
+                     "_clear_clipping_layers defaults", "CompatibilityMode members",
+                     "the stored relation as state: clear over the visited layers, then the pass (Model/ClipState.lean)",
+                     "every public mutator as a list of effects (raw mutations, recomputations with owner and tests) from the source",
+                     "the constructor's final recomputation"],
+        "search_only": ["compositor gate at composite/__init__.py:231"],
+        "abstract": ["what a structural edit does to the tree (any new tree in the theorem; read off the real objects in the "
+                     "correspondence)"],
         "opaque": ["pixels of the composite (C11)"],
     }
     if ctx.tier == "thorough":
